@@ -6,11 +6,17 @@ full:    True when the property's statement is proved at full strength (evidence
 PROOFS = {
     "C04": dict(coq=["theories/Prop_C04.v"], full=False,
                 missing="History part (the allocating side holds a committed claim when `allocated` is sent) pending."),
+    "C06": dict(coq=["theories/Prop_C06.v"], full=False,
+                missing="Step isolation proved (a command of app A changes nothing of app B and sends nothing to B). The "
+                        "trace-level non-interference statement (B's observations equal those of the history with the other "
+                        "apps removed) is not proved; it is false as it stands because of known finding KF1 (refuted witness "
+                        "in Prop_C06.v)."),
     "C08": dict(coq=["theories/Prop_C08.v"], full=True, missing=""),
     "C09": dict(coq=["theories/Prop_C09.v"], full=True, missing=""),
     "C10": dict(coq=["theories/Prop_C10.v"], full=False,
                 missing="Proved: every committed snapshot well-formed, restart never fails internally, quiescence empties the "
                         "store. Not yet quoted: resume equivalence of re-sent commands (ResumeFacts)."),
+    "C11": dict(coq=["theories/Prop_C11.v"], full=True, missing=""),
     "C12": dict(coq=["theories/Prop_C12.v"], full=True, missing=""),
     "C13": dict(coq=["theories/Prop_C13.v"], full=True, missing=""),
     "C15": dict(coq=["theories/Prop_C15.v"], full=False,
@@ -18,4 +24,5 @@ PROOFS = {
                         "(one record per retirement) is pending (UsageCount)."),
     "C16": dict(coq=["theories/Prop_C16.v"], full=True, missing=""),
     "C17": dict(coq=["theories/Prop_C17.v"], full=True, missing=""),
+    "C18": dict(coq=["theories/Prop_C18.v"], full=True, missing=""),
 }
